@@ -20,7 +20,7 @@ well-formed value, a well-formed target without DynamicPseudoType, and a
 `dynamicReplace` assumes of its arguments (see the counterexamples for what
 happens without it).
 -/
-import CtyModel.Lemmas.ConvertProps
+import CtyModel.Lemmas.ConvertUnknown
 namespace CtyModel
 namespace C08
 open Convert Ty
@@ -158,6 +158,145 @@ theorem identity_own_type (E : Env) (fuel : Nat) (v : Value) (hw : Value.wt v = 
 theorem idempotent_partial (E : Env) (hU : UnifyLaws E) (fuel fuel' : Nat) (v r : Value) (want : Ty)
     (hp : RegularPair v want) (h : convert E fuel v want = .ok r) : convert E fuel' r want = .ok r :=
   convert_idempotent hU hp h
+
+/-! ## Unknown and null inputs -/
+
+/-- A null input converts to the null of the target type (placeholder-free target,
+regular pair; through `Convert` or any conversion `GetConversion*` returns). -/
+theorem null_sound_partial (E : Env) (hU : UnifyLaws E) (fuel : Nat) (uns : Bool) (v : Value) (want : Ty)
+    (p : Plan) (hp : RegularPair v want) (hg : getConv E v.ty want uns = some p)
+    (hm : v.isMarked = false) (hk : v.isKnown = true) (hn : v.isNull = true) :
+    apply E (fuel + 1) p v = .ok (Value.null want.stripOpt) :=
+  apply_null_exact hU fuel hp hg hm hk hn
+
+/-- An unknown input converts to a value of the target type computed by
+`prepareUnknownResult` from the input's range, and when that value is an unknown
+carrying the refinement `rf`, the refinement is carried only where still true:
+* it says "not null" only if the input was definitely not null;
+* for a collection converted to a list or map its length bounds are no tighter
+  than the input's (those conversions keep the number of elements);
+* for a collection converted to a set the lower bound is at most 1 (and 0 if the
+  input may be empty): members may coalesce, but not vanish; the upper bound is no
+  tighter than the input's;
+* for a tuple / object converted to a list / map the bounds admit the number of
+  elements / attributes; for a tuple converted to a set, between min(1, n) and n. -/
+theorem unknown_sound_partial (E : Env) (hU : UnifyLaws E) (fuel : Nat) (uns : Bool) (v r : Value)
+    (want : Ty) (p : Plan) (hp : RegularPair v want) (hg : getConv E v.ty want uns = some p)
+    (hm : v.isMarked = false) (hk : v.isKnown = false) (h : apply E (fuel + 1) p v = .ok r) :
+    r.ty = want.stripOpt ∧
+    ∃ rng, Refine.range v = .ok rng ∧ rng.ty = v.ty ∧ ∀ rf, r.v = .unk rf →
+      (rf.nullness = .f → rng.definitelyNotNull = true) ∧
+      (∀ lo hi e, Refine.isCollectionTy v.ty = true → rng.lengthLowerBound = .ok lo →
+        rng.lengthUpperBound = .ok hi →
+        (want.stripOpt = .set e → lenLo rf ≤ (if lo > 0 then 1 else 0) ∧ min hi Refine.maxInt ≤ lenHi rf) ∧
+        (want.stripOpt = .list e ∨ want.stripOpt = .map e →
+          lenLo rf ≤ max lo 0 ∧ min hi Refine.maxInt ≤ lenHi rf)) ∧
+      (∀ ts e, v.ty = .tuple ts → want.stripOpt = .list e →
+        lenLo rf ≤ (ts.length : Int) ∧ (ts.length : Int) ≤ lenHi rf ∨ Refine.maxInt < ts.length) ∧
+      (∀ ts e, v.ty = .tuple ts → want.stripOpt = .set e →
+        lenLo rf ≤ min (ts.length : Int) 1 ∧ (ts.length : Int) ≤ lenHi rf ∨ Refine.maxInt < ts.length) ∧
+      (∀ ns ts os e, v.ty = .object ns ts os → want.stripOpt = .map e →
+        lenLo rf ≤ (ns.length : Int) ∧ (ns.length : Int) ≤ lenHi rf ∨ Refine.maxInt < ns.length) := by
+  refine ⟨apply_ty hU hp hg h, ?_⟩
+  rw [apply_unknown_exact hU fuel hp hg hm hk] at h
+  obtain ⟨rng, hrng, h⟩ := Res.bind_eq_ok h
+  have hty : rng.ty = v.ty := by
+    unfold Refine.range at hrng
+    repeat' split at hrng
+    all_goals first
+      | (simp at hrng; subst hrng; rfl)
+      | simp at hrng
+  refine ⟨rng, hrng, hty, ?_⟩
+  intro rf hr
+  have hl := prepare_len h hr
+  refine ⟨prepare_notNull h hr, ?_, ?_, ?_, ?_⟩
+  · intro lo hi e hc; exact hl.2.2.2 lo hi e (by rw [hty]; exact hc)
+  · intro ts e hv; exact hl.2.1 ts e (by rw [hty]; exact hv)
+  · intro ts e hv; exact hl.2.2.1 ts e (by rw [hty]; exact hv)
+  · intro ns ts os e hv; exact hl.1 ns ts os e (by rw [hty]; exact hv)
+
+/-- the clause the seeded change "clamp only when the source is not a set" breaks: an
+unknown set of at least 2 strings becomes an unknown set of numbers with at least 1 member -/
+example : convert Env.simple 4 ⟨.set .string, .unk (.coll .u 2 3)⟩ (.set .number) =
+    .ok ⟨.set .number, .unk (.coll .u 1 3)⟩ := rfl
+
+/-! ## No panic -/
+
+/-- Full statement: no conversion request on a well-formed value panics.  FALSE of
+the code — see `no_panic_counterexample`. -/
+def NoPanic : Prop :=
+  ∀ (E : Env) (fuel : Nat) (v : Value) (want : Ty), UnifyLaws E → SetLaws E → Value.wt v = true →
+    want.wf = true → (convert E fuel v want).isPanic = false
+
+/-- the witness: a null map converted to an object type with an optional attribute of
+tuple type that the map's element type cannot convert to — `dynamicReplace` asks a
+non-tuple type for its tuple elements -/
+theorem no_panic_counterexample :
+    (convert Env.simple 4 ⟨.map .string, .null⟩ (.object ["a"] [.tuple [.string]] [true])).isPanic = true ∧
+    regular (.map .string) (.object ["a"] [.tuple [.string]] [true]) = false := by
+  constructor <;> decide
+
+theorem noPanic_false : ¬ NoPanic := by
+  intro h
+  have := h Env.simple 4 ⟨.map .string, .null⟩ (.object ["a"] [.tuple [.string]] [true]) unifyLaws_simple
+    setLaws_simple (by decide) (by decide)
+  rw [no_panic_counterexample.1] at this
+  exact absurd this (by decide)
+
+/-! ## Round trips through the inverse conversion -/
+
+/-- bool → string → bool gives back the same bool (string → bool is the unsafe inverse). -/
+theorem roundtrip_bool_string (E : Env) (fuel : Nat) (b : Bool) :
+    convert E (fuel + 2) ⟨.bool, .b b⟩ .string = .ok ⟨.string, .s (if b then "true" else "false")⟩ ∧
+    convert E (fuel + 2) ⟨.string, .s (if b then "true" else "false")⟩ .bool = .ok ⟨.bool, .b b⟩ := by
+  cases b <;> exact ⟨rfl, rfl⟩
+
+/-- Full statement for numbers: number → string → number gives back a number that
+`Equals` the original (`rawNumberEqual`).  FALSE of the code — see
+`roundtrip_number_string_counterexample`. -/
+def RoundtripNumberString : Prop :=
+  ∀ (E : Env) (fuel : Nat) (n m : Num) (s : String),
+    convert E (fuel + 2) ⟨.number, .n n⟩ .string = .ok ⟨.string, .s s⟩ →
+    convert E (fuel + 2) ⟨.string, .s s⟩ .number = .ok ⟨.number, .n m⟩ → Num.rawEqual m n = true
+
+/-- the float64 nearest to 1e23, i.e. `cty.NumberFloatVal(1e23)`: 99999999999999991611392 -/
+def float1e23 : Num := .fin false 2980232238769531 25 53
+
+/-- the witness: number → string prints the shortest decimal that identifies the number
+at its own 53-bit precision ("1" and 23 zeros); string → number reads that as the
+integer 10^23, which is a different integer, and integers are compared exactly -/
+theorem roundtrip_number_string_counterexample :
+    convert Env.simple 2 ⟨.number, .n float1e23⟩ .string = .ok ⟨.string, .s "100000000000000000000000"⟩ ∧
+    convert Env.simple 2 ⟨.string, .s "100000000000000000000000"⟩ .number =
+      .ok ⟨.number, .n (.fin false 11920928955078125 23 512)⟩ ∧
+    Num.rawEqual (.fin false 11920928955078125 23 512) float1e23 = false := by
+  refine ⟨rfl, rfl, by decide⟩
+
+theorem roundtripNumberString_false : ¬ RoundtripNumberString := by
+  intro h
+  have := h Env.simple 0 float1e23 _ _ roundtrip_number_string_counterexample.1
+    roundtrip_number_string_counterexample.2.1
+  rw [roundtrip_number_string_counterexample.2.2] at this
+  exact absurd this (by decide)
+
+/-- what does hold for every environment and fuel: zeros keep their sign and the
+infinities come back (the harness evaluates the round trip on every generated
+number; the class of finite non-zero numbers whose printed text is exact is not
+characterised here) -/
+theorem roundtrip_number_string_partial (E : Env) (fuel : Nat) (neg : Bool) (p : Nat) :
+    (∃ s, convert E (fuel + 2) ⟨.number, .n (.inf neg)⟩ .string = .ok ⟨.string, .s s⟩ ∧
+      convert E (fuel + 2) ⟨.string, .s s⟩ .number = .ok ⟨.number, .n (.inf neg)⟩) ∧
+    (∃ s, convert E (fuel + 2) ⟨.number, .n (.fin neg 0 0 p)⟩ .string = .ok ⟨.string, .s s⟩ ∧
+      convert E (fuel + 2) ⟨.string, .s s⟩ .number = .ok ⟨.number, .n (.fin neg 0 0 512)⟩) := by
+  cases neg
+  · exact ⟨⟨"+Inf", rfl, rfl⟩, ⟨"0", rfl, rfl⟩⟩
+  · exact ⟨⟨"-Inf", rfl, rfl⟩, ⟨"-0", rfl, rfl⟩⟩
+
+/-- tuple → list has no inverse: no conversion from a list type to a tuple type is
+ever offered (so "tuple → list → tuple" cannot be asked for). -/
+theorem roundtrip_tuple_list_no_inverse (E : Env) (e : Ty) (ts : List Ty) (uns : Bool) :
+    getConv E (.list e) (.tuple ts) uns = none := by
+  simp [getConv, gck, Ty.isDyn, isPrim]
 
 /-! ## Non-vacuity: the hypotheses are satisfiable by non-trivial inputs -/
 
